@@ -68,7 +68,7 @@ var (
 	KnownFormats = []string{
 		"MMM D, YYYY h:mm:ss P",
 		"DDD MMM _D HH:mm:ss YYYY",
-		"DDD MMM _D HH:mm:ss MST YYYY",
+		"DDD MMM _D HH:mm:ss ZZZ YYYY",
 		"DDD MMM DD HH:mm:ss ZZZZ YYYY",
 		"DDDD, YY-MMM-DD HH:mm:ss ZZZ",
 		"DDD, DD MMM YYYY HH:mm:ss ZZZ",
